@@ -261,6 +261,15 @@ func (ws *priorityWriteScheduler) OpenStream(streamID uint32, options OpenStream
 			panic(fmt.Sprintf("stream %d already opened", streamID))
 		}
 		curr.state = priorityNodeOpen
+		// The node is not idle any more: take it off the list of idle nodes,
+		// or it is removed from the tree - with whatever the stream has
+		// queued - when it has become the oldest entry of that list.
+		for i, n := range ws.idleNodes {
+			if n == curr {
+				ws.idleNodes = append(ws.idleNodes[:i], ws.idleNodes[i+1:]...)
+				break
+			}
+		}
 		return
 	}
 
